@@ -19,8 +19,8 @@
    * a literal enters resolution only through `i8::try_from(v)`, `i16::try_from(v)`, `i32::try_from(v)`:
      the model keeps the smallest signed width the value fits ([litw], [classify_lit]).
    * `best_datatype_for_variadic_any` uses a strict `>` against a running best that starts at 0.
-   * the set-operation binder zips the two column lists (the shorter one wins) and compares option scores
-     with `>=` (None < Some _). *)
+   * the set-operation binder rejects branches of different column counts, then zips the two column lists and
+     compares option scores with `>=` (None < Some _). *)
 From Coq Require Import NArith ZArith List Bool.
 Import ListNotations.
 Open Scope N_scope.
@@ -313,13 +313,17 @@ Definition unify1 (P : params) (l r : dtype) : option (dtype * side) :=
     | None, None => None                                   (* "Cannot find suitable cast type" *)
     | _, _ => if opt_ge left_score right_score then Some (l, SRight) else Some (r, SLeft)
     end.
-(* `for (left, right) in left_types.into_iter().zip(right_types)` *)
-Fixpoint unify_cols (P : params) (ls rs : list dtype) : option (list (dtype * side)) :=
+(* `for (left, right) in left_types.into_iter().zip(right_types)`: the loop alone stops at the shorter list *)
+Fixpoint unify_zip (P : params) (ls rs : list dtype) : option (list (dtype * side)) :=
   match ls, rs with
   | l :: ls', r :: rs' =>
     match unify1 P l r with
-    | Some x => match unify_cols P ls' rs' with Some xs => Some (x :: xs) | None => None end
+    | Some x => match unify_zip P ls' rs' with Some xs => Some (x :: xs) | None => None end
     | None => None
     end
   | _, _ => Some []
   end.
+(* SetOpBinder::bind since f82a4c29b: `if left_types.len() != right_types.len() { return Err(..) }` before the loop
+   (until then the binder was [unify_zip] alone) *)
+Definition unify_cols (P : params) (ls rs : list dtype) : option (list (dtype * side)) :=
+  if Nat.eqb (List.length ls) (List.length rs) then unify_zip P ls rs else None.
